@@ -43,7 +43,12 @@ let () = register "c04.errlocs" (fun line ->
    answer again iff every range in it passes the judgement extracted from Coq (Proofs/ServerRange.v:
    range_in_doc for clause (i), range_designates / ranges_designate for clause (ii), proved sound by C04_designate_sound),
    otherwise "VIOL n: ..." listing the offending ranges.  Classes: the exact class predicates (also extracted) of the
-   offending ranges when EVERY offending range of the case has one, else "-" (an unlisted deviation). *)
+   offending ranges when EVERY offending range of the case has one, else "-" (an unlisted deviation).
+   Names written in COMMENTS (---@class / ---@alias / ---@field names, type names inside annotation types) are no tokens
+   of the Lua lexer: ranges that designate them (documentSymbol / workspace symbol entries of kind Interface, definition
+   answers for a cursor on an annotation type name or on a member resolved to a ---@field) are judged by the TEXT
+   predicate text_designates (Proofs/ServerRangeText.v: the text under the range, LSP reading, is the name; sound for
+   every document: C04_text_designate_sound); the name under a cursor that stands on no Lua identifier is word_at. *)
 let utf8_decode (bs : n list) : n list option =
   let a = Array.of_list (List.map int_of_n bs) in
   let len = Array.length a in
@@ -167,25 +172,32 @@ let () = register "c04.ranges" (fun line ->
               (match f.fcls with
                | c :: _ -> Some c
                | [] -> if other r then Some "wrong_file"
-                       else if op = "diag" && cls_eof_comment f.cps then Some "eof_comment" else None); None
+                       else if op = "define" && Array.exists (fun (g : c04file) -> g.rel <> f.rel && cls_ann_type_word g.cps r) files
+                       then Some "value_type_file"
+                       else if op = "diag" && cls_eof_comment f.cps then Some "eof_comment"
+                       else if op = "diag" && cls_ann_bytes_doc f.cps r then Some "ann_bytes" else None); None
           end in
       (* clause (ii): r designates `name` in file f (only demanded inside the guard).  q = the query (file, line,
          character) for the answers of define / refs / highlight / rename *)
       let acceptable (g : c04file) (name : n list) (r : range) q =
-        ranges_designate g.lts name [r] || cls_string_key g.lts name r || cls_self_alias g.lts name r
+        range_designates_any g.cps g.lts name r || cls_string_key g.lts name r || cls_self_alias g.lts name r
         || (match q with Some ((qf : c04file), l, c) -> cls_prefix_fallback qf.lts l c g.lts r | None -> false) in
       let elsewhere (f : c04file) (name : n list) (r : range) q =
         Array.exists (fun (g : c04file) -> g.rel <> f.rel && range_in_doc g.cps r && ((not g.guard) || acceptable g name r q)) files in
       let designate k op (f : c04file) (rs : string) (r : range) (name : n list) ~(span_ok : bool) q =
         if f.guard then begin
           incr ndemand;
-          if not (ranges_designate f.lts name [r]) then begin
+          if not (range_designates_any f.cps f.lts name r) then begin
             let cls =
-              if cls_string_key f.lts name r then Some "string_key"
+              if cls_ann_bytes f.cps name r then Some "ann_bytes"
+              else if cls_string_key f.lts name r then Some "string_key"
               else if cls_self_alias f.lts name r then Some "self_alias"
               else if span_ok && cls_outline_span f.lts name r then Some "outline_span"
               else if (match q with Some ((qf : c04file), l, c) -> cls_prefix_fallback qf.lts l c f.lts r | None -> false)
               then Some (if op = "define" then "define_prefix" else "prefix_fallback")
+              else if op = "define" && cls_ann_type_word f.cps r then Some "member_value_type"
+              else if op = "define" && Array.exists (fun (g : c04file) -> g.rel <> f.rel && cls_ann_type_word g.cps r) files
+              then Some "value_type_file"
               else if q <> None && elsewhere f name r q then Some "wrong_file"
               else if (match q with Some ((qf : c04file), l, c) -> cls_other_entity qf.lts l c (qf.rel = f.rel) f.lts name r | None -> false)
               then Some "other_entity"
@@ -194,6 +206,22 @@ let () = register "c04.ranges" (fun line ->
               else None in
             let under = (match ident_text_at f.lts r with Some t -> "ident:" ^ string_of_bytes t | None -> "no-ident-token") in
             viol k op (Printf.sprintf "%s@%s:want=%s:%s" f.rel rs (string_of_bytes name) under) cls
+          end
+        end in
+      (* clause (ii) for a name written in a comment: the TEXT under r is `name`.  The judgement needs no guard; the
+         demand is made for the files outside the six column classes and without lexical error (the comment's own
+         start column comes from the Lua lexer) *)
+      let designate_text k op (f : c04file) (rs : string) (r : range) (name : n list) ~(others : bool) =
+        if f.fcls = [] then begin
+          incr ndemand;
+          if not (text_designates f.cps name r) then begin
+            let cls =
+              if cls_ann_bytes f.cps name r then Some "ann_bytes"
+              else if others && Array.exists (fun (g : c04file) -> g.rel <> f.rel && (g.fcls <> [] || text_designates g.cps name r)) files
+              then Some "wrong_file"
+              else None in
+            let under = (match ann_unbyte f.cps r with Some _ -> "bytecols-in-doc" | None -> "no-bytecols") in
+            viol k op (Printf.sprintf "%s@%s:want-text=%s:%s" f.rel rs (string_of_bytes name) under) cls
           end
         end in
       let locs_of k op (v : string) : (c04file * string) list =
@@ -217,12 +245,17 @@ let () = register "c04.ranges" (fun line ->
           let qf = files.(i) in
           let name = if qf.guard then ident_at qf.lts (n_of_int l) (n_of_int c) else None in
           let q = Some (qf, n_of_int l, n_of_int c) in
+          (* the cursor stands on no Lua identifier token: the word under it (an annotation type name) *)
+          let wname = if name = None && qf.guard then word_at qf.cps (n_of_int l) (n_of_int c) else None in
           List.iter (fun (f, rs) ->
             let other r = (match name with
                 | Some nm -> elsewhere f nm r q
                 | None -> Array.exists (fun (g : c04file) -> g.rel <> f.rel && range_in_doc g.cps r) files) in
             match in_doc ~other k op f rs with
-            | Some r -> (match name with Some nm -> designate k op f rs r nm ~span_ok:false q | None -> ())
+            | Some r -> (match name, wname with
+                | Some nm, _ -> designate k op f rs r nm ~span_ok:false q
+                | None, Some w -> designate_text k op f rs r w ~others:true
+                | None, None -> ())
             | None -> ()) targets in
         match st with
         | StDefine (i, l, c) when key = "define" -> query "define" i l c (locs_of k "define" v)
@@ -243,6 +276,14 @@ let () = register "c04.ranges" (fun line ->
                match in_doc k "docsym-sel" f d.dsel with
                | Some r when d.dkind <> 11 ->
                  designate k "docsym-sel" f d.dsel r (bytes_of_string (last_component d.dname)) ~span_ok:(d.dkids || d.dkind = 12) None
+               | Some r ->
+                 (* kind Interface: an annotation class / alias; its name (dots included) is written in a comment.
+                    Range and selectionRange are both the name *)
+                 designate_text k "docsym-ann-sel" f d.dsel r (bytes_of_string d.dname) ~others:false;
+                 (match parse_range d.drange with
+                  | Some r2 when d.drange <> d.dsel && range_in_doc f.cps r2 ->
+                    designate_text k "docsym-ann" f d.drange r2 (bytes_of_string d.dname) ~others:false
+                  | _ -> ())
                | _ -> ()) (List.rev !acc)
            | None -> ())
         | StWssym _ when key = "wssym" ->
@@ -256,6 +297,7 @@ let () = register "c04.ranges" (fun line ->
                     (match in_doc k "wssym" f rs with
                      | Some r when kind <> "11" ->
                        designate k "wssym" f rs r (bytes_of_string (last_component (string_of_bytes (bytes_of_hex nm)))) ~span_ok:false None
+                     | Some r -> designate_text k "wssym-ann" f rs r (bytes_of_hex nm) ~others:false
                      | _ -> ())
                   | _, None -> viol k "wssym" (rel ^ "@" ^ rs ^ ":unknown-file") None
                   | _ -> ())
